@@ -86,6 +86,7 @@ pub enum Class {
     // ---- known findings of the other clause: a handle released twice / used after release
     AliasOfBox,
     ReturnedLetBoundBox,
+    EscapingClosureCapturesLetBoundBox,
 }
 
 pub const STABLE: [Class; 33] = [
@@ -126,7 +127,7 @@ pub const STABLE: [Class; 33] = [
 /// Constructs that release a heap object twice (logged `invalid HeapIdx`) or use it after release
 /// (`BoxLoad: invalid heap index`) on the pinned tree. One scenario in twelve contains exactly one
 /// of them and nothing else, so that these findings cannot hide another use-after-release.
-pub const UAF: [Class; 2] = [Class::AliasOfBox, Class::ReturnedLetBoundBox];
+pub const UAF: [Class; 3] = [Class::AliasOfBox, Class::ReturnedLetBoundBox, Class::EscapingClosureCapturesLetBoundBox];
 pub const LEAKY: [Class; 28] = [
     Class::LocalCaptureBound,
     Class::ReturnedBound,
@@ -204,6 +205,7 @@ impl Class {
             Class::BoxInCondition => "boxed-temporary-consumed-in-an-if-condition",
             Class::AliasOfBox => "alias-of-a-let-bound-box",
             Class::ReturnedLetBoundBox => "block-or-helper-yielding-its-let-bound-box",
+            Class::EscapingClosureCapturesLetBoundBox => "closure-capturing-a-let-bound-box-and-leaving-its-block",
             Class::FactoryCallbackScheduledByLetrecTask => "factory-made-callback-scheduled-by-a-letrec-task",
             Class::MatchBoxPayload => "match-projecting-a-boxed-payload-of-a-global-tree",
             Class::AssignGlobalClosure => "closure-assigned-to-a-global-from-dsp",
@@ -414,6 +416,11 @@ impl Inst {
                     2 => format!("  let yl{i} = {{\n    let a = Yc{i}(now, Yn{i})\n    a\n  }};\n  let r{i} = now;\n"),
                     _ => format!("  let yl{i} = {{\n    let a = Yc{i}(now, Yn{i})\n    a\n  }};\n  let r{i} = ysum{i}(yl{i});\n"),
                 },
+                format!("r{i}"),
+            ),
+            Class::EscapingClosureCapturesLetBoundBox => (
+                format!("type rec Zl{i} = Zn{i} | Zc{i}(float, Zl{i})\n"),
+                format!("  let zf{i} = {{\n    let l = Zc{i}(now + {k}, Zn{i})\n    | | match l {{ Zn{i} => 0.0, Zc{i}(h, t) => h }}\n  }};\n  let r{i} = zf{i}();\n"),
                 format!("r{i}"),
             ),
             Class::ShadowedBox => (
